@@ -134,9 +134,13 @@ fn exec<'a>(kind: &str, it: &'a Item, open: &mut Option<Open<'a>>) -> Res {
 				}
 				"write_slpp" => of_bytes(real::write_slpp(g, it.comp)),
 				_ => {
-					let limit = if kind == "write_slpp_fail_early" { 700 } else { it.arch.len() - 1500 };
-					real::fail_write_slpp(g, it.comp, limit);
-					Res::Err
+					// early: inside the first entries; late: inside the frame data, or (every other replay) one byte short
+					let limit = if kind == "write_slpp_fail_early" { 700 } else if b.len() % 2 == 0 { it.arch.len() - 1500 } else { it.arch.len() - 1 };
+					match real::fail_write_slpp_outcome(g, it.comp, limit) {
+						Outcome::Err(_) => Res::Err,
+						Outcome::Ok(n) => Res::Other(format!("a write into a sink that fails after {} bytes reported success ({} bytes taken)", limit, n)),
+						o => Res::Other(format!("{}: {}", o.kind(), o.detail())),
+					}
 				}
 			}
 		}
